@@ -185,6 +185,9 @@ func runAdmCase(c admCase) outcome {
 					// resident, once no candidate is left - every arrival of this pass must have been judged or removed by then
 					if !demoted[ev.key] {
 						for d := range demoted {
+							if c.Weighted && admWeight(c.Max, d) == 0 {
+								continue // a zero-weight entry is skipped, it is no arrival that has to be judged
+							}
 							if !consumed[d] {
 								o.Err = fmt.Errorf("the resident key %d was evicted without any comparison while the arrival %d of the same pass had been neither compared with a victim nor removed: it displaced a resident without its estimate being consulted", ev.key, d)
 								break
@@ -279,9 +282,12 @@ func TestC18_Admission(t *testing.T) {
 	})
 }
 
-// admWeight: most entries weigh 1..3, every fifth key is heavy (a fifth of the capacity), so that lowering the maximum
+// admWeight: most entries weigh 1..3, some weigh nothing, every fifth key is heavy (a fifth of the capacity), so that lowering the maximum
 // can leave an entry in the window that alone exceeds it.
 func admWeight(max, k int) uint32 {
+	if k%7 == 3 {
+		return 0 // pinned: never a candidate, never a victim, skipped wherever the eviction cursors meet it
+	}
 	if k%5 == 0 {
 		if max >= 1000 {
 			return uint32(max / 125) // fits into the admission window (1% of the capacity) together with light arrivals
